@@ -52,7 +52,7 @@ def Post (D : Driver prog α) (ctx : Option LC) (k : List Stmt) (s : St) (F : Na
       (∃ F', F' < F ∧ D.run F' lc.after { trunc lc.envs s' with loops := lc.ls } = r) ∧ FrameN s s' ∧ StOK (GoodFn prog) prog s'
   | .ok (.cont, s') => ∃ lc, ctx = some lc ∧
       (∃ F', F' < F ∧ D.run F' lc.lstart (trunc lc.envs s') = r) ∧ FrameN s s' ∧ StOK (GoodFn prog) prog s'
-  | .ok (.ret cur, s') => (∃ F', F' ≤ F ∧ D.run F' cur s' = r) ∧ (∃ e m k', cur = Stmt.ret e m :: k') ∧
+  | .ok (.ret cur, s') => (∃ F', F' ≤ F ∧ D.run F' cur s' = r) ∧ (∃ e m k', cur = Stmt.ret e m :: k' ∧ IsSuffixOf cur prog) ∧
       RetFrame s s' ∧ StOK (GoodFn prog) prog s'
   | .err e => r = .err e
   | .panic p => r = .panic p
@@ -82,7 +82,7 @@ theorem d_simple (hp : progWF prog = true) (st : Stmt) (hsimple : st.isSimple = 
   by_cases hstop : st.isStop = true
   · cases st <;> simp [Stmt.isSimple, Stmt.isStop] at hsimple hstop
     simp only [sStmt, Post]
-    exact ⟨⟨F, Nat.le_refl _, h⟩, ⟨_, _, _, rfl⟩, RetFrame.refl s, hs⟩
+    exact ⟨⟨F, Nat.le_refl _, h⟩, ⟨_, _, _, rfl, hsuf⟩, RetFrame.refl s, hs⟩
   · have hstop' : st.isStop = false := by simpa using hstop
     obtain ⟨F1, rfl, hne, h2⟩ := D.unstep hstop' h hr
     have hG' : exec prog G (st :: k) s = exec prog (F1+1) (st :: k) s := exec_fuel_irrel hne (by omega)
@@ -399,7 +399,7 @@ variable {prog : List Stmt} {α : Type}
 def IterPost (D : Driver prog α) (k : List Stmt) (ls : List LoopEnv) (s : St) (F : Nat) (r : Res α) : Res (Sig × St) → Prop
   | .ok (.normal, s') => (∃ F', F' ≤ F ∧ D.run F' k s' = r) ∧ s'.loops = ls ∧ s'.scopes.length = s.scopes.length ∧
       (∃ j, s'.flags = List.replicate j true ++ s.flags) ∧ StOK (GoodFn prog) prog s'
-  | .ok (.ret cur, s') => (∃ F', F' ≤ F ∧ D.run F' cur s' = r) ∧ (∃ e m k', cur = Stmt.ret e m :: k') ∧
+  | .ok (.ret cur, s') => (∃ F', F' ≤ F ∧ D.run F' cur s' = r) ∧ (∃ e m k', cur = Stmt.ret e m :: k' ∧ IsSuffixOf cur prog) ∧
       RetFrame s s' ∧ StOK (GoodFn prog) prog s'
   | .ok (.brk, _) => False
   | .ok (.cont, _) => False
